@@ -32,6 +32,38 @@ for i,l in enumerate(lines):
         for a in attrs: out.append(a)
         out.append('#[allow(dead_code, unused_imports, clippy::all)]')
         out.append('pub mod %s;'%m.group(3))
-print('\n'.join(out))
+# `verif` (the guarded hook module, whose thread-locals belong to the harness) is declared
+# before the macro below comes into scope; for every other module `thread_local!` means "one value
+# per SIMULATED thread" (simtokio::sim::worker_local)
+blocks=[]; cur=[]
+for l in out:
+    cur.append(l)
+    if l.startswith('pub mod '):
+        blocks.append(cur); cur=[]
+first=[b for b in blocks if b[-1]=='pub mod verif;']
+rest=[b for b in blocks if b[-1]!='pub mod verif;']
+macro = r'''
+#[allow(unused_macros)]
+macro_rules! thread_local {
+    () => {};
+    ($(#[$a:meta])* $v:vis static $n:ident : $t:ty = const $init:block; $($rest:tt)*) => {
+        $(#[$a])* $v static $n: ::tokio::sim::worker_local::WorkerLocal<$t> = ::tokio::sim::worker_local::WorkerLocal::new(|| $init);
+        thread_local!($($rest)*);
+    };
+    ($(#[$a:meta])* $v:vis static $n:ident : $t:ty = const $init:block) => {
+        $(#[$a])* $v static $n: ::tokio::sim::worker_local::WorkerLocal<$t> = ::tokio::sim::worker_local::WorkerLocal::new(|| $init);
+    };
+    ($(#[$a:meta])* $v:vis static $n:ident : $t:ty = $init:expr; $($rest:tt)*) => {
+        $(#[$a])* $v static $n: ::tokio::sim::worker_local::WorkerLocal<$t> = ::tokio::sim::worker_local::WorkerLocal::new(|| $init);
+        thread_local!($($rest)*);
+    };
+    ($(#[$a:meta])* $v:vis static $n:ident : $t:ty = $init:expr) => {
+        $(#[$a])* $v static $n: ::tokio::sim::worker_local::WorkerLocal<$t> = ::tokio::sim::worker_local::WorkerLocal::new(|| $init);
+    };
+}
+'''
+print('\n'.join(sum(first,[])))
+print(macro)
+print('\n'.join(sum(rest,[])))
 PY
 if ! cmp -s "$H/srv_mods.rs.new" "$H/srv_mods.rs" 2>/dev/null; then mv "$H/srv_mods.rs.new" "$H/srv_mods.rs"; else rm "$H/srv_mods.rs.new"; fi
